@@ -7,6 +7,8 @@ namespace Cares.Chan
 theorem StepS.refl (xf xi d) (a : Sk) : StepS xf xi d a a where
   faults := rfl
   kMono := Nat.le_refl _
+  keyMono := Nat.le_refl _
+  idxNew := fun _ h => Or.inl h
   unl := fun _ q h _ => ⟨q, h, fun _ hk => hk⟩
   orphan := fun _ _ _ h => h
   debtAlive := fun _ h _ => h
@@ -15,6 +17,11 @@ theorem StepS.trans {xf xi d} {a b c : Sk} (h1 : StepS xf xi d a b) (h2 : StepS 
     StepS xf xi d a c where
   faults := h2.faults.trans h1.faults
   kMono := Nat.le_trans h1.kMono h2.kMono
+  keyMono := Nat.le_trans h1.keyMono h2.keyMono
+  idxNew := fun x hx => by
+    rcases h2.idxNew x hx with h | h
+    · exact h1.idxNew x h
+    · exact Or.inr (Nat.le_trans h1.keyMono h)
   unl := fun fd q h hx => by
     obtain ⟨q1, hq1, s1⟩ := h1.unl fd q h hx
     obtain ⟨q2, hq2, s2⟩ := h2.unl fd q1 hq1 hx
@@ -29,6 +36,8 @@ theorem StepS.weaken {xf xi d xf' xi' d'} {a b : Sk} (h : StepS xf xi d a b)
     StepS xf' xi' d' a b where
   faults := h.faults
   kMono := h.kMono
+  keyMono := h.keyMono
+  idxNew := h.idxNew
   unl := fun fd q hm hx => h.unl fd q hm (by
     rcases hf with hf | hf
     · rw [hf]; exact fun hh => by cases hh
@@ -44,11 +53,13 @@ theorem StepS.weaken' {xf xi d} {a b : Sk} (h : StepS none none d a b) : StepS x
 
 /-- a step that leaves the ownership projections alone only has to account for the connection lists -/
 theorem StepS.of_same {xf xi d} {a b : Sk} (hf : b.faults = a.faults) (hk : b.nextClient = a.nextClient)
-    (hq : b.qKO = a.qKO) (hi : b.idx = a.idx) (hc : b.clients = a.clients) (hp : b.pendingToks = a.pendingToks)
+    (hnk : b.nextKey = a.nextKey) (hq : b.qKO = a.qKO) (hi : b.idx = a.idx) (hc : b.clients = a.clients) (hp : b.pendingToks = a.pendingToks)
     (hu : ∀ fd q, (fd, true, q) ∈ a.cFUQ → some fd ≠ xf → ∃ q', (fd, true, q') ∈ b.cFUQ ∧ ∀ k ∈ q', k ∈ q) :
     StepS xf xi d a b where
   faults := hf
   kMono := by rw [hk]; exact Nat.le_refl _
+  keyMono := by rw [hnk]; exact Nat.le_refl _
+  idxNew := fun x hx => Or.inl (hi ▸ hx)
   unl := hu
   orphan := fun id _ _ hn => by unfold Sk.NoSub at *; rw [hq, hi]; exact hn
   debtAlive := fun id ha _ => by unfold Sk.Active at *; rw [hc, hp]; exact ha
@@ -72,7 +83,7 @@ theorem bump_bump (d : Nat → Nat) (id m n : Nat) : bump (bump d id m) id n = b
 
 theorem step_rfc {xf xi d} {a : Sk} {hole} {k : Nat} {e : QSk} (_h : WfS a hole) (hq : a.q? k = some e) :
     StepS xf xi d a (a.removeFromConn k) := by
-  refine StepS.of_same (by simp) (by simp) (by simp) (by simp) (by simp) (by simp) ?_
+  refine StepS.of_same (by simp) (by simp) (by simp) (by simp) (by simp) (by simp) (by simp) ?_
   intro fd q hm _
   rw [rfc_cFUQ hq]
   by_cases hcf : some fd = e.conn
